@@ -79,3 +79,24 @@ Example amp_pattern_real :
   | None => False
   end.
 Proof. vm_compute. repeat split. Qed.
+
+(* the schemaLocation rewrite (Xml/RoundTripSetVersion.v): a root with another accepted spelling - lower case xsd name and a
+   further part - loads silently, is outside the recorded classes, and is read back with the canonical text *)
+From AV Require Import Xml.RoundTripCanon Xml.RoundTripSetVersion.
+Definition doc_lower_xsd : list N := BS
+  ("<?xml version=""1.0"" encoding=""utf-8""?><AUTOSAR xsi:schemaLocation=""http://autosar.org/schema/r4.0 autosar_00050.xsd more"" xmlns=""http://autosar.org/schema/r4.0"" xmlns:xsi=""http://www.w3.org/2001/XMLSchema-instance"">"
+   ++ "<AR-PACKAGES><AR-PACKAGE><SHORT-NAME>Pkg</SHORT-NAME></AR-PACKAGE></AR-PACKAGES></AUTOSAR>").
+
+Definition root_attr_texts (t : etree) : list (list N) :=
+  match t with ENode _ _ attrs _ _ => flat_map (fun a => match snd a with DString s => [s] | _ => [] end) attrs end.
+
+Example rewritten_real :
+  match reload_of doc_lower_xsd with
+  | Some (t, ver, t') =>
+    knownb RT t = false /\ Serializer.set_version RT tab_attr accept_all ver t = Val t' /\
+    existsb (bytes_eqb (BS "http://autosar.org/schema/r4.0 autosar_00050.xsd more")) (root_attr_texts t) = true /\
+    existsb (bytes_eqb (BS "http://autosar.org/schema/r4.0 autosar_00050.xsd more")) (root_attr_texts t') = false /\
+    existsb (bytes_eqb (BS "http://autosar.org/schema/r4.0 AUTOSAR_00050.xsd")) (root_attr_texts t') = true
+  | None => False
+  end.
+Proof. vm_compute. repeat split. Qed.
